@@ -353,7 +353,7 @@ def handle_mismatches(agg, sc, tier, findings, log):
         else:
             mjob, mres, info = job, res, {'skipped': True}
         mres['mismatch'].pop('native_address_logs', None)
-        if native is None:
+        if native is None and not tier.get('no_native_confirm'):
             native = minimise.native_confirm(mjob, mres, sc, log)
         path = driver.replay_path(PID, str(job['seed']))
         with open(path, 'w') as fh:
@@ -422,6 +422,7 @@ def main(argv=None):
     ap.add_argument('--explore-s', type=float)
     ap.add_argument('--histories', type=int)
     ap.add_argument('--no-selftest', action='store_true')
+    ap.add_argument('--no-minimise', action='store_true')
     args = ap.parse_args(argv)
     if args.gen_digest:
         wl = workload.build(driver.REPO)
@@ -447,6 +448,9 @@ def main(argv=None):
             tier['explore_s'] = args.explore_s
         if args.histories:
             tier['histories'] = args.histories
+        if args.no_minimise:
+            tier['max_min'] = 0
+            tier['no_native_confirm'] = True
         log('VERIF_SEED=%d tier=%s workers=%d aslr_off=%s' % (
             base, args.tier, driver.NPROC, bool(driver.setarch_prefix())))
         wl = workload.build(driver.REPO)
